@@ -39,6 +39,31 @@ ASSUMPTIONS = ["CPython 3.12 protocol behaviour (athrow() on a finished async ge
 K_F9 = "F9-asyncgen-athrow-bypasses-catcher"
 K_GENEXIT = "C16-throw-generatorexit-becomes-close"
 K_CLOSE_GE = "C16-close-logs-generatorexit-when-matched"
+# genuine defects that the integrator has not listed in known_findings.json yet: counted, not raised, until
+# the key appears there (then they print as KNOWN-FINDING like the others).  Empty: the defect found in
+# round 5 (F31, stacked catch() on an async generator function: outer decorators inert) was repaired in
+# /repo by 2c59ddf; its former failing input is corpus/C16/regression_stacked_asyncgen_outer_catches.json
+PENDING_FINDINGS = []
+
+
+def pending(ctx, key):
+    return key in PENDING_FINDINGS and not any(f.get("key") == key for f in ctx.findings)
+
+
+# message texts (the `message=` argument of catch()): `__exit__` hands `_log` args=() and kwargs={} but the
+# options list carries record=True, so `_log` formats the text with `record=<the record>` and nothing else
+# (documented: "it will be formatted with the record attribute"); markup is not interpreted (colors=False)
+MSG_POOL = ["", "{record[level].name} ", "{{}} ", "{record[exception].type.__name__}|{record[extra]} ",
+            "<red>t</red> ", "{record[level].no:>5} ", "\\<b> ", "%s%d{{ "]
+# malformed templates: the formatting error is raised by `_log` INSIDE `__exit__` (after the level test, before
+# any handler sees a record): it replaces the caught exception, no record, no onerror call, flag reset
+MSG_BAD = {"{} ": (999, 0), "{x} ": (907, 0), "{ ": (908, 0), "} ": (908, 0), "{record[nope]} ": (907, 0)}
+
+
+def message_of(c):
+    if c.get("msgbad"):
+        return c["msgbad"] + "M%d" % c["level"][1]
+    return MSG_POOL[c.get("msg", 0)] + "M%d" % c["level"][1]
 
 
 # ----------------------------------------------------------------------------- class universe
@@ -146,6 +171,8 @@ def gen_cfg(rng, nested_calls=False):
         # the name is resolved when the record is produced, e.g. a decorator applied at import time
         cfg["level"] = list(rng.choice(CUSTOM_LEVELS))
         cfg["level_when"] = rng.choice(["pre", "post"])
+    if rng.chance(30):
+        cfg["msg"] = rng.range(1, len(MSG_POOL) - 1)
     if onerr != "n" and rng.chance(25):
         # the callback is a callable OBJECT whose truth value is False (registry with __len__() == 0 /
         # __bool__() False): it was passed, so it must be called
@@ -236,9 +263,14 @@ def gen_env(rng):
 
 def gen_scenario(rng):
     kind = rng.choice(["fn", "with", "awith", "gen", "gen", "gen", "coro", "coro", "agen", "agen", "agen"])
-    depth = 1 if rng.chance(75) else rng.range(2, 3)
-    return {"kind": kind, "cfgs": [gen_cfg(rng, True) for _ in range(depth)], "env": gen_env(rng),
-            "table": gen_table(rng, kind), "ops": gen_ops(rng, kind)}
+    depth = 1 if rng.chance(72) else rng.range(2, 3)
+    if kind not in ("with", "awith") and rng.chance(4):
+        depth = rng.range(4, 6)         # decorators stack to any height (Catch/Tower.lean)
+    sc = {"kind": kind, "cfgs": [gen_cfg(rng, True) for _ in range(depth)], "env": gen_env(rng),
+          "table": gen_table(rng, kind), "ops": gen_ops(rng, kind)}
+    if depth == 1 and rng.chance(3):
+        sc["cfgs"][0]["msgbad"] = rng.choice(sorted(MSG_BAD))
+    return sc
 
 
 # ----------------------------------------------------------------------------- wire format
@@ -290,8 +322,8 @@ def line_of(sc):
 
 
 def res_token(r):
-    if r[0] == "X":
-        return "X(%s)" % r[1].replace(" ", "_").replace(",", ";")
+    if r[0] in ("X", "K"):
+        return "%s(%s)" % (r[0], r[1].replace(" ", "_").replace(",", ";"))
     if r[0] in ("y", "s", "r"):
         return "%s%d" % (r[0], r[1])
     if r[0] == "e":
@@ -487,7 +519,7 @@ def new_logger(run):
         c = run.canon(ex.value) if ex is not None else (998, 0)
         names = DEPTH_NAMES_AWITH if run.sc["kind"] == "awith" else DEPTH_NAMES
         run.trace.append(("L", rec["level"].no, c[0], c[1], names.get(rec["function"], 9)))
-        if rec["message"] != "M%d" % rec["level"].no:
+        if rec["message"] not in [(m + "M%d" % rec["level"].no).format(record=rec) for m in MSG_POOL]:
             run.trace.append(("BADMSG", rec["message"]))
         if ex is None or ex.type is not type(ex.value) or ex.traceback is None:
             run.trace.append(("BADEXC",))
@@ -520,6 +552,35 @@ def new_logger(run):
 
 class BuildError(Exception):
     """logger.catch(**config) itself raised"""
+
+
+class KindError(Exception):
+    """the decorated function is not the kind of function the undecorated one is"""
+
+
+def fn_kind(f):
+    import inspect
+    if inspect.iscoroutinefunction(f):
+        return "coroutine"
+    if inspect.isasyncgenfunction(f):
+        return "asyncgen"
+    if inspect.isgeneratorfunction(f):
+        return "generator"
+    return "plain"
+
+
+def decorate(lg, cfgs, run, f, kind):
+    """apply the stack of decorators, innermost first; a coroutine / generator / plain function must stay
+    one under every decorator (that is what makes the NEXT decorator wrap its protocol: `inspect` is how
+    `Catcher.__call__` itself chooses the wrapper)"""
+    k0 = fn_kind(f)
+    for i, c in enumerate(cfgs):
+        f = catcher_of(lg, c, run)(f)
+        if kind != "agen" and fn_kind(f) != k0:
+            raise KindError("decorator %d of %d: a %s function became a %s function" % (i + 1, len(cfgs), k0, fn_kind(f)))
+        # (the wrapper of an async generator function is a plain function returning a wrapper OBJECT; what a
+        # stack of them owes is judged by behaviour: every decorator guards the iteration)
+    return f
 
 
 class FalsyLen:
@@ -615,7 +676,7 @@ def catcher_of(lg, c, run):
     if onerror is not None and c.get("ofalsy"):
         onerror = (FalsyLen if c["ofalsy"] == "len" else FalsyBool)(onerror)
     kw = {"exception": class_param(c["exc"]), "level": c["level"][0], "reraise": c["reraise"], "onerror": onerror,
-          "default": pyval(c["default"]), "message": "M%d" % c["level"][1]}
+          "default": pyval(c["default"]), "message": message_of(c)}
     if c["excl"] is not None or c["default"] % 2 == 0:
         kw["exclude"] = class_param(c["excl"])
     try:
@@ -695,10 +756,7 @@ def execute(sc, wrapped):
             register_levels(lg, sc, "post")
     try:
         if kind == "fn":
-            f = body
-            if wrapped:
-                for c in sc["cfgs"]:
-                    f = catcher_of(lg, c, run)(f)
+            f = decorate(lg, sc["cfgs"], run, body, kind) if wrapped else body
             built()
             results.append(_call_depth2(run, f))
             acts.append(run.actions[:])
@@ -754,10 +812,7 @@ def execute(sc, wrapped):
             acts.append(run.actions[:])
             tlens.append(len(run.trace))
         else:
-            f = body
-            if wrapped:
-                for c in sc["cfgs"]:
-                    f = catcher_of(lg, c, run)(f)
+            f = decorate(lg, sc["cfgs"], run, body, kind) if wrapped else body
             built()
             obj = f()
             for op in sc["ops"]:
@@ -802,6 +857,8 @@ def execute(sc, wrapped):
             del run.trace[n0:]
     except BuildError as be:
         return [("X", str(be))], [[]], run.trace, None, [0]
+    except KindError as ke:
+        return [("K", str(ke))], [[]], run.trace, None, [0]
     finally:
         run.live = False
         run.finalising = True
@@ -822,6 +879,8 @@ def spec_catch(env, c, cur, depth):
     if cur[0] >= NC or m[cur[0]] != "1" or x[cur[0]] == "1":
         return "pass", cur, []
     events = []
+    if c["level"][1] >= env_minlevel(env) and c.get("msgbad"):
+        return "raise", MSG_BAD[c["msgbad"]], events       # the template cannot be formatted: `_log` raises
     if c["level"][1] >= env_minlevel(env):
         # some handler accepts the level: exactly one record ...
         events.append(("L", c["level"][1], cur[0], cur[1], depth))
@@ -858,9 +917,10 @@ def spec_catch(env, c, cur, depth):
 
 def spec_escape(sc, e, depth):
     """An exception `e` = (cls, id) raised by the wrapped code itself escapes it (guard flag clear).
-    Returns (('ret', default) | ('raise', exc), expected events) for the stack of catchers."""
+    Returns (('ret', default) | ('raise', exc), expected events) for the stack of catchers (every
+    decorator of a stack protects the iteration - async generator functions included, see F31)."""
     env = sc["env"]
-    cfgs = sc["cfgs"][:1] if sc["kind"] == "agen" else sc["cfgs"]
+    cfgs = sc["cfgs"]
     events = []
     cur = tuple(e)
     handled = False
@@ -919,12 +979,15 @@ def judge(sc, W, U):
     if rw and rw[0][0] == "X":
         return [("logger.catch(**config) itself raised %s - building the decorator / context manager must not fail "
                  "(a level name may be registered later, before the first record)" % rw[0][1], None)]
+    if rw and rw[0][0] == "K":
+        return [("%s - the next decorator of a stack (and every `inspect`-based framework) then treats it as a "
+                 "different kind of callable: its iteration / awaiting is no longer protected" % rw[0][1], None)]
     if isinstance(canary, tuple):
         problems.append(("after the scenario, a fresh catch(onerror=cb)-decorated function raising on the same logger "
                          "gave %s; expected its default, %s record and exactly one onerror call (guard flag left "
                          "set / onerror skipped?)" % (canary[1], "one" if sc["env"].get("sink", "normal") == "normal" else "no"),
                          None))
-    cfgs = sc["cfgs"][:1] if kind == "agen" else sc["cfgs"]
+    cfgs = sc["cfgs"]
     for i in range(len(ru)):
         body_raised = [a for a in au[i] if a == "e" or (isinstance(a, tuple) and a[0] == "x")]
         own = [a for a in au[i] if a == "e"]
@@ -960,6 +1023,273 @@ def judge(sc, W, U):
         return problems
     return problems
 
+
+
+# ----------------------------------------------------------------------------- round 5: the guard flag across threads
+def gen_thread_scenario(rng):
+    """2-4 threads, each calling a catch()-decorated function that raises an exception of its own, on ONE
+    logger; a schedule at the granularity the code offers (each activation of `__exit__` can be held INSIDE
+    `_log` - flag set, record not yet emitted - and inside its onerror callback - flag reset)"""
+    n = rng.range(2, 4) if rng.chance(85) else 2
+    shared_decorator = rng.chance(35)       # all threads go through ONE decorated function (one Catcher object)
+    base = None
+    threads = []
+    for t in range(n):
+        if shared_decorator and base is not None:
+            c = dict(base)
+        else:
+            c = {"exc": gen_exc_names(rng), "excl": ["c%d" % rng.choice(USER)] if rng.chance(20) else None,
+                 "reraise": rng.chance(30), "level": list(rng.choice(LEVELS[:4])), "default": rng.choice([0, 1, 7]),
+                 "onerror": "n" if rng.chance(35) else ("k" if rng.chance(85) else [rng.choice(USER), 300 + t])}
+            base = c
+        threads.append({"cfg": c, "exc": [rng.choice(USER), 100 + t]})
+    sched = [rng.below(n) for _ in range(rng.range(0, 3 * n + 2))]
+    return {"threads": threads, "schedule": sched, "shared": shared_decorator,
+            "sink": "normal" if rng.chance(85) else "none"}
+
+
+STEPS_AT = {"log": 2, "onerror": 5, "end": 5}     # atomic steps of the model an activation has made at a hold point
+
+
+def thread_line(sc, full_sched):
+    """the model takes one atomic step per schedule entry; a real thread runs from one hold point to the next
+    (`full_sched` = [(thread, hold point reached)]): held inside `_log` = tests, flag := True done; held inside
+    its onerror callback (the call is already on the trace) or at its end = all five steps done"""
+    made = [0] * len(sc["threads"])
+    steps = []
+    for t, where in full_sched:
+        k = max(STEPS_AT[where] - made[t], 0)
+        steps += [t] * k
+        made[t] += k
+    thr = ";".join(":".join([bits_of(th["cfg"]["exc"]), bits_of(th["cfg"]["excl"]), "1" if th["cfg"]["reraise"] else "0",
+                             "%d" % th["cfg"]["level"][1],
+                             th["cfg"]["onerror"] if isinstance(th["cfg"]["onerror"], str) else "r%d.%d" % tuple(th["cfg"]["onerror"]),
+                             "%d.%d" % tuple(th["exc"])]) for th in sc["threads"])
+    return "thr %d %s %s" % (MINLEVEL[sc["sink"]], thr, ",".join(str(t) for t in steps) or "-")
+
+
+def execute_threads(sc, timeout=10.0):
+    """real threads, one running at a time: the controller releases thread t, which runs to its next hold
+    point (inside `_log`, via a patcher of the logger the catcher was made from; inside onerror) or to its
+    end.  Returns (results per thread, trace [(tid, event)], full schedule, problem or None)."""
+    import threading
+    from loguru._logger import Core, Logger
+    lg0 = Logger(core=Core(), exception=None, depth=0, record=False, lazy=False, colors=False, raw=False,
+                 capture=True, patchers=[], extra={})
+    n = len(sc["threads"])
+    trace, results = [], [None] * n
+    gates = [threading.Event() for _ in range(n)]
+    arrived = threading.Event()
+    finished = [False] * n
+    tid_of = {}
+    excs = [CLASSES[th["exc"][0]]() for th in sc["threads"]]
+    onerr_excs = {}
+    abort = [False]
+
+    def canon(e):
+        for t, x in enumerate(excs):
+            if x is e:
+                return tuple(sc["threads"][t]["exc"])
+        for k, x in onerr_excs.items():
+            if x is e:
+                return k
+        return (900 + CLS_INDEX.get(type(e), 99), 0)
+
+    where = ["start"] * n
+
+    def hold(kind):
+        t = tid_of.get(threading.get_ident())
+        if t is None or abort[0]:
+            return
+        where[t] = kind
+        arrived.set()
+        if not gates[t].wait(timeout):
+            abort[0] = True
+        gates[t].clear()
+
+    def sink(msg):
+        rec = msg.record
+        t = tid_of.get(threading.get_ident(), -1)
+        c = canon(rec["exception"].value) if rec["exception"] is not None else (998, 0)
+        trace.append((t, ("L", rec["level"].no, c[0], c[1], {"catch_wrapper": 0, "work": 1}.get(rec["function"], 9))))
+
+    if sc["sink"] != "none":
+        lg0.add(sink, level=0, format="{message}", catch=False, backtrace=False, diagnose=False, colorize=False)
+    lg = lg0.patch(lambda record: hold("log"))    # runs inside `_log`, before any handler: guard flag is set
+
+    def catcher(t, c):
+        o = c["onerror"]
+        if o == "n":
+            onerror = None
+        else:
+            def onerror(e, o=o):
+                tt = tid_of.get(threading.get_ident(), -1)
+                trace.append((tt, ("O",) + canon(e)))
+                hold("onerror")
+                if o != "k":
+                    key = (o[0], o[1])
+                    onerr_excs.setdefault(key, CLASSES[o[0]]())
+                    raise onerr_excs[key]
+        kw = {"exception": class_param(c["exc"]), "level": c["level"][0], "reraise": c["reraise"], "onerror": onerror,
+              "default": pyval(c["default"]), "message": "M"}
+        if c["excl"] is not None:
+            kw["exclude"] = class_param(c["excl"])
+        return lg.catch(**kw)
+
+    def raiser():
+        raise excs[tid_of[threading.get_ident()]]
+
+    one = catcher(0, sc["threads"][0]["cfg"])(raiser) if sc["shared"] else None
+    funcs = [one if sc["shared"] else catcher(t, th["cfg"])(raiser) for t, th in enumerate(sc["threads"])]
+
+    def work(t):
+        tid_of[threading.get_ident()] = t
+        gates[t].wait(timeout)
+        gates[t].clear()
+        try:
+            results[t] = ("r", canval(funcs[t]()))
+        except BaseException as e:  # noqa
+            results[t] = ("e",) + canon(e)
+        finished[t] = True
+        where[t] = "end"
+        arrived.set()
+
+    ths = [threading.Thread(target=work, args=(t,), daemon=True) for t in range(n)]
+    for th in ths:
+        th.start()
+    full = []
+    problem = None
+
+    def release(t):
+        if finished[t]:
+            return True
+        arrived.clear()
+        gates[t].set()
+        ok = arrived.wait(timeout)
+        full.append((t, where[t] if ok and where[t] != "start" else "end"))
+        return ok
+    try:
+        for t in sc["schedule"]:
+            if not release(t):
+                problem = "thread %d made no progress within %.0f s after schedule prefix %s" % (t, timeout, full)
+                break
+        if problem is None:
+            for t in range(n):
+                for _ in range(4):
+                    if not finished[t] and not release(t):
+                        problem = "thread %d made no progress within %.0f s (tail of the schedule)" % (t, timeout)
+                        break
+    finally:
+        abort[0] = True
+        for g in gates:
+            g.set()
+        for th in ths:
+            th.join(timeout)
+        try:
+            lg0.remove()
+        except BaseException:  # noqa
+            pass
+    return results, trace, full, problem
+
+
+def spec_threads(sc):
+    """the property, per thread, whatever the schedule: a handled exception gives exactly one record (if a
+    handler accepts the level) then one onerror call, suppressed or re-raised as configured"""
+    env = {"probes": [], "logbits": "0" * NC, "logexc": [11, 400], "sink": sc["sink"]}
+    out = []
+    for th in sc["threads"]:
+        st, exc, events = spec_catch(env, th["cfg"], tuple(th["exc"]), 1)
+        res = ("r", th["cfg"]["default"]) if st == "suppressed" else ("e",) + tuple(exc)
+        out.append((res, events))
+    return out
+
+
+def thread_judge(ctx, sc):
+    """real run + direct oracle; returns (clean, full schedule, results, trace)"""
+    results, trace, full, problem = execute_threads(sc)
+    replay = {"stream": "threads", "scenario": sc}
+    if problem:
+        ctx.violation("threads: " + problem, replay)
+        return False, full, None, trace
+    spec = spec_threads(sc)
+    for t, (res, events) in enumerate(spec):
+        mine = [ev for (tt, ev) in trace if tt == t]
+        if results[t] != res or mine != events:
+            ctx.violation("threads: thread %d of %d (schedule %s, hold points: inside _log / inside onerror) raised %s "
+                          "in a catch()-decorated function; expected result %s with events %s, observed %s with events %s"
+                          % (t, len(spec), full, "%d.%d" % tuple(sc["threads"][t]["exc"]), res_token(res),
+                             [ev_token(e, False) for e in events], res_token(results[t]) if results[t] else None,
+                             [ev_token(e, False) for e in mine]), replay)
+            return False, full, results, trace
+    strangers = [ev for (tt, ev) in trace if tt < 0]
+    if strangers:
+        ctx.violation("threads: events outside any scheduled thread: %s" % strangers, replay)
+        return False, full, results, trace
+    return True, full, results, trace
+
+
+def thread_compare(ctx, sc, clean, results, trace, out):
+    """real threads vs the interleaving model (Catch/Threads.lean, storage = the GENERATED `Gen.flagStore`)"""
+    p = out.split(" ")
+    if len(p) != 4 or p[0] != "R" or p[2] != "T":
+        raise core.DriverError("unexpected model answer: %r" % out)
+    mres = p[1].split(",")
+    mtr = [] if p[3] == "-" else p[3].split(",")
+    ires = []
+    for t, r in enumerate(results):
+        if r is None:
+            ires.append("?")
+        elif r[0] == "r":
+            ires.append("s")
+        elif r[1:] == tuple(sc["threads"][t]["exc"]):
+            ires.append("p")
+        else:
+            ires.append("e%d.%d" % (r[1], r[2]))
+    itr = ["%d:%s" % (tt, ev_token(ev, False)) for tt, ev in trace]
+    if (ires, itr) != (mres, mtr):
+        ctx.stat("disagreements")
+        ctx.broke("correspondence Catch.Threads (real threads vs interleaving model)",
+                  "scenario=%r impl=%r %r model=%r %r" % (sc, ires, itr, mres, mtr))
+        if clean:
+            ctx.violation("threads: real threads and the interleaving model disagree: impl %s %s, model %s %s"
+                          % (ires, itr, mres, mtr), {"stream": "threads", "scenario": sc}, kind="correspondence")
+        return False
+    return True
+
+
+def thread_stream(ctx, rng, drv, model_ok):
+    n = ctx.n(250, 6000) * (4 if getattr(ctx, "search_boost", False) else 1)
+    scs = [W_THREADS] + [gen_thread_scenario(rng) for _ in range(n)]
+    done = []
+    for sc in scs:
+        clean, full, results, trace = thread_judge(ctx, sc)
+        done.append((sc, clean, full, results, trace))
+        ctx.case(("threads", repr(sc)), nontrivial=len(set(sc["schedule"])) > 1)
+        ctx.traces_validated += 1
+        ctx.stat("threads:%d" % len(sc["threads"]))
+        if sc["shared"]:
+            ctx.stat("threads:one_decorator_shared")
+        if len(ctx.violations) >= 40:
+            break
+    if model_ok:
+        # the model's schedule is the one the real run actually took: one driver call for the whole batch
+        todo = [d for d in done if d[3] is not None]
+        try:
+            outs = drv.run([thread_line(d[0], d[2]) for d in todo])
+        except core.DriverError as e:
+            ctx.broke("driver:" + DRIVER, str(e))
+            return
+        for (sc, clean, full, results, trace), out in zip(todo, outs):
+            thread_compare(ctx, sc, clean, results, trace, out)
+
+
+# the shared-flag refutation of Props/C16 (`shared_flag_loses_record_witness`) as a real schedule: thread 0 is held
+# inside `_log` while thread 1 runs its whole activation
+W_THREADS = {"threads": [{"cfg": {"exc": ["Exception"], "excl": None, "reraise": False, "level": ["ERROR", 40], "default": 7,
+                                  "onerror": "k"}, "exc": [8, 101]},
+                         {"cfg": {"exc": ["Exception"], "excl": None, "reraise": False, "level": ["ERROR", 40], "default": 7,
+                                  "onerror": "k"}, "exc": [7, 102]}],
+             "schedule": [0, 1, 1, 0, 0, 1], "shared": True, "sink": "normal"}
 
 # ----------------------------------------------------------------------------- witnesses / corpus
 def cfg_default(**kw):
@@ -1011,11 +1341,14 @@ def run_case(ctx, sc, out_line, tag):
     problems = judge(sc, W, U)
     clean = True
     for what, key in problems:
+        if pending(ctx, key):
+            ctx.stat("pending_finding:" + key)
+            continue
         clean = False
         ctx.violation("%s: %s" % (sc["kind"], what), {"stream": tag, "scenario": sc}, key=key)
     nested = len(sc["cfgs"]) > 1
-    if out_line is None:
-        return clean, W, U
+    if out_line is None or any(c.get("msgbad") for c in sc["cfgs"]):
+        return clean, W, U          # (a template that cannot be formatted is judged by the oracle alone)
     mw, mt, mu = parse_answer(out_line, nested)
     iw = [res_token(r) for r in W[0]]
     iu = [res_token(r) for r in U[0]]
@@ -1030,7 +1363,7 @@ def run_case(ctx, sc, out_line, tag):
         ctx.stat("disagreements")
         ctx.broke("correspondence Catch.Model (decorated object vs model)",
                   "scenario=%r impl=%r %r model=%r %r" % (sc, iw, it, mw, mt))
-        if not problems:
+        if not [p for p in problems if not pending(ctx, p[1])]:
             ctx.violation("%s: decorated object and model disagree: impl %s %s, model %s %s"
                           % (sc["kind"], iw, it, mw, mt), {"stream": tag, "scenario": sc}, kind="correspondence")
     return clean, W, U
@@ -1151,6 +1484,9 @@ def _run(ctx):
             if len(ctx.violations) >= 40 or ctx.stats.get("protocol_model_disagreements", 0) > 20:
                 break
 
+    # ---- round 5: the guard flag across threads (real threads under forced schedules)
+    thread_stream(ctx, rng.fork("threads"), drv, model_ok)
+
     # ---- corpus expectations (exact)
     for sc, exp_res, exp_tr in list(CORPUS) + file_expect:
         W = execute(sc, True)
@@ -1239,6 +1575,22 @@ def replay(ctx, rep):
         bad = bool(ctx.violations)
         print("REPRODUCED" if bad else "not reproduced")
         return 1 if bad else 0
+    if r.get("stream") == "threads":
+        clean, full, results, trace = thread_judge(ctx, r["scenario"])
+        print("schedule:    ", full)
+        print("results:     ", [res_token(x) if x else None for x in (results or [])])
+        print("trace:       ", ["%d:%s" % (t, ev_token(e, False)) for t, e in trace])
+        if clean and results is not None:
+            try:
+                out = core.Driver(DRIVER).run([thread_line(r["scenario"], full)])[0]
+                print("model:       ", out)
+                clean = thread_compare(ctx, r["scenario"], True, results, trace, out) or rep.get("kind") != "correspondence"
+            except core.DriverError:
+                pass
+        for v in ctx.violations:
+            print("oracle:      ", v["what"])
+        print("REPRODUCED" if not clean else "not reproduced")
+        return 0 if clean else 1
     sc = r["scenario"]
     try:
         out = core.Driver(DRIVER).run([line_of(sc)])[0]
